@@ -1350,7 +1350,7 @@ func ipamRandomScenario(k int, env string, skip map[string]bool) []vt.M {
 		}
 		return m
 	}
-	fams := []string{"random", "lifecycle", "resandbox", "shrink", "faulty", "rollback", "rdma", "gcstale", "adopt", "replace"}
+	fams := []string{"random", "lifecycle", "resandbox", "shrink", "faulty", "rollback", "rdma", "gcstale", "adopt", "replace", "shrink6", "resync"}
 	fam := fams[k%len(fams)]
 	if skip[fam] {
 		fam = "random"
@@ -1364,6 +1364,9 @@ func ipamRandomScenario(k int, env string, skip map[string]bool) []vt.M {
 	}
 	if fam == "replace" {
 		n = rng.Intn(3)
+	}
+	if fam == "shrink6" || fam == "resync" {
+		n = 0
 	}
 	for i := 0; i < n; i++ {
 		p := 1 + rng.Intn(4)
@@ -1445,6 +1448,37 @@ func ipamRandomScenario(k int, env string, skip map[string]bool) []vt.M {
 		}
 		sc = append(sc, vt.M{"a": "pod_create", "p": 1 + rng.Intn(2)}, vt.M{"a": "pod_create", "p": 3 + rng.Intn(2)},
 			vt.M{"a": "plan", "outcomes": []any{ipamFaults[rng.Intn(len(ipamFaults))]}}, vt.M{"a": "reconcile"}, rec())
+	case "shrink6":
+		// IPv6-only node: three pods fill the first interface, a fourth pod gets a sparsely used second interface; the
+		// three leave with teardown reported; the surplus exceeds the number of addresses on the second interface, whose
+		// only binding is the IPv6 address of a running pod
+		cf["v4"], cf["v6"], cf["cap4"], cf["cap6"], cf["sec"], cf["trunk"], cf["rdma"] = false, true, 3, 3, 2, false, 0
+		cf["pre"], cf["init"], cf["min"], cf["max"] = 0, "empty", 0, rng.Intn(2)
+		sc = append(sc, vt.M{"a": "pod_create", "p": 1}, vt.M{"a": "pod_create", "p": 2}, vt.M{"a": "pod_create", "p": 3}, vt.M{"a": "reconcile"},
+			vt.M{"a": "pod_create", "p": 4}, vt.M{"a": "reconcile"}, vt.M{"a": "reconcile"})
+		for _, p := range []int{1, 2, 3, 4} {
+			sc = append(sc, vt.M{"a": "cni_add", "p": p})
+		}
+		for _, p := range []int{1, 2, 3} {
+			sc = append(sc, vt.M{"a": "pod_delete", "p": p})
+		}
+		sc = append(sc, vt.M{"a": "flush"}, vt.M{"a": "reconcile"}, vt.M{"a": "reconcile"})
+		if rng.Intn(2) == 0 {
+			sc = append(sc, vt.M{"a": "pod_create", "p": 1}, rec())
+		}
+		sc = append(sc, rec())
+	case "resync":
+		// a status-update conflict right after a cloud change (the new interface is attached but not in the record), then
+		// the re-sync of the next round(s) fails at listing the interfaces; demand is still there
+		cf["sec"], cf["trunk"], cf["rdma"], cf["pre"], cf["preIPs"], cf["init"], cf["min"], cf["max"] = 2, false, 0, 1, 2, "empty", 0, 1+rng.Intn(2)
+		cf["cap4"], cf["cap6"] = 2, 2
+		sc = append(sc, vt.M{"a": "pod_create", "p": 1}, vt.M{"a": "pod_create", "p": 2}, vt.M{"a": "reconcile"}, vt.M{"a": "reconcile"},
+			vt.M{"a": "pod_create", "p": 3}, vt.M{"a": "pod_create", "p": 4},
+			vt.M{"a": "reconcile", "write": []string{"conflict", "conflict", "error"}[rng.Intn(3)]})
+		for j := 0; j < 1+rng.Intn(2); j++ {
+			sc = append(sc, vt.M{"a": "describe_fail"}, vt.M{"a": "reconcile"})
+		}
+		sc = append(sc, vt.M{"a": "reconcile"}, rec(), rec())
 	case "faulty":
 		// demand with faults at successive cloud calls and a failed status update right after a cloud change
 		for _, p := range []int{1, 2, 3} {
